@@ -6,7 +6,7 @@ From Coq Require Import Permutation.
 From RtoscV Require ArgVal.AvModel.
 From RtoscV Require Import Save.TopoModel Save.SaveModel Save.SaveProofs Save.RoundProofs Save.RoundFull Save.PermApp Save.SortStage Save.EqStage Save.SaveRegress.
 From RtoscV Require Import Ports.WalkModel Ports.DispatchModel Ports.TreeProofs Ports.DispatchWalk Ports.NamesModel.
-From RtoscV Require Import Save.TreeApp Save.DispatchStage Save.TreeStage.
+From RtoscV Require Import Save.TreeApp Save.DispatchStage Save.TreeStage Save.WalkStage Save.TreePipeline.
 Import ListNotations.
 Local Open Scope Z_scope.
 
@@ -335,3 +335,67 @@ Theorem C12_eq_stage_array_nonvacuous : forall F,
   av_eq_array F 84 70 [VT true; VT false] [VT true; VT false] = true /\
   av_eq_array F 105 102 [] [] = false.
 Proof. exact eq_stage_array_nonvacuous. Qed.
+
+(* ======================================================================== *)
+(* Stage 5: the walk stage instantiated (C09)                                  *)
+(* ======================================================================== *)
+(* walk_ports over the names of the tree, no runtime object: the walker is called with
+   exactly the element addresses of app_of_tree, port by port in the application's order,
+   every element once (C09_enumerates; the model expands "name#N" leaves, the save walk asks
+   for one report per port and expands the elements itself). *)
+Theorem C12_walk_addresses : forall t,
+  names_ok (sports_of t) = true ->
+  walk None (map render_port (sports_of t)) [] =
+  WOk (flat_map (fun fp => map (fun k => (f_id (fst fp), elem_addr (snd fp) k)) (seq 0 (p_len (snd fp))))
+                (combine (flat_root t) (app_of_tree t))) [47].
+Proof. exact walk_addresses. Qed.
+
+(* with the runtime object of a state [st] - the oracle C09's model asks: a pointer
+   sub-tree is NULL while its switch is off, an 'enabled by' toggle answers the state's
+   value - the walker is called for exactly the live ports (C09_pruning_enumerated, put
+   together for the whole tree: walk_pruned_wf) *)
+Theorem C12_walk_live_reports : forall t st,
+  names_ok (sports_of t) = true -> NoDup (map dir_addr (dirs_root t)) ->
+  walk (Some (oracle_of (app_of_tree t) (dirs_root t) st)) (map render_port (sports_of t)) [] =
+  WOk (flat_map (live_reports (app_of_tree t) st) (flat_root t)) [47].
+Proof. exact walk_live_reports. Qed.
+
+(* the former premise "C09": the ports the walk reaches are the live ports, in order.
+   Side conditions: distinct sub-tree addresses, distinct element addresses, no empty array. *)
+Theorem C12_walk_stage : forall t st,
+  let a := app_of_tree t in
+  names_ok (sports_of t) = true -> NoDup (map dir_addr (dirs_root t)) ->
+  NoDup (app_addresses a) -> (forall i, (i < length a)%nat -> (0 < p_len (port_at a i))%nat) ->
+  walk_tree t st = filter (live a st) (seq 0 (length a)).
+Proof. exact walk_stage. Qed.
+
+(* C12_roundtrip through the pipeline with the walk, the value comparison, the sort and the
+   dispatch instantiated by the models of the code (C09, C16, C13, C04 + C14).  _partial:
+   the one stage still assumed is print/scan (C10: [print_scan_hypothesis]); beside it
+   [full_conditions] (well-formed application, state of the right shape, saved values
+   stable), [comparable] (no NaN), [cstrings], [declared] (decidable), an acyclic
+   dependency scan, and the decidable conditions on the tree: names_ok, tree_ok (C04's),
+   pt_wf, distinct sub-tree and element addresses. *)
+Theorem C12_roundtrip_pipeline_tree_walk_partial :
+  forall text print_lines scan_text hp tid (t : list pt) apropos fuel F st ps,
+    let a := app_of_tree t in
+    names_ok (sports_of t) = true -> tree_ok (to_tree hp tid (sports_of t)) -> Forall pt_wf t ->
+    NoDup (map dir_addr (dirs_root t)) -> NoDup (app_addresses a) ->
+    print_scan_hypothesis text print_lines scan_text ->
+    full_conditions a st -> comparable a st -> cstrings st ->
+    declared a apropos ->
+    pushes line apropos fuel (msgs (save_lines a st)) = Some ps -> ranked ps ->
+    exists fin,
+      real_load text scan_text (fun _ l s => tree_apply_line hp tid t l s)
+                (fun _ ls => sort_by_load_order apropos fuel ls) a
+                (real_save text (fun _ s => walk_tree t s) (av_eq_real F) print_lines a st) (initial a)
+      = Some (Z.of_nat (length (save_lines a st)), fin) /\
+      forall q, (q < length a)%nat -> p_nodef (port_at a q) = false -> live a st q = true ->
+                restored_val (port_at a q) (val_at st q) (val_at fin q).
+Proof. exact roundtrip_pipeline_tree_walk. Qed.
+
+Theorem C12_pipeline_tree_walk_nonvacuous :
+  NoDup (map dir_addr (dirs_root fx_tree)) /\ NoDup (app_addresses (app_of_tree fx_tree)) /\
+  walk_tree fx_tree fx_state = [0; 1; 2]%nat /\
+  walk_tree fx_tree (initial (app_of_tree fx_tree)) = [0; 2]%nat.
+Proof. exact pipeline_tree_walk_nonvacuous. Qed.
